@@ -564,12 +564,55 @@ def _bounded_worker(args):
     sys.setrecursionlimit(max(sys.getrecursionlimit(), 20000))
     n = runs = 0
     problems = []
+    # the body goes the way a clause goes: compile_program on the one-clause program  t :- Body  (so that whatever is done to
+    # a body before or after compile_body is part of what is checked); compile_body alone if that cannot be evaluated
+    from .symex import DictV
+    cp = cm.repo.lookup_method(comp, 'compile_program')
+    init = cm.repo.lookup_method(comp, '__init__')
+    state0 = None
+    whole = cp is not None
+    if whole and init is not None:
+        try:
+            o = sx.run(init, [Sym('context')], PathState())
+            state0 = o[0][0] if len(o) == 1 else None
+        except AnalysisError:
+            state0 = None
+        whole = state0 is not None
+
+    def through_program(body):
+        head = New(cm._class('Predicate'), [New(cm._class('Functor'), [New(cm._class('Atom'), [Const('t')]), ListV([])])])
+        clause = New(cm._class('Clause'), [head, body])
+        d = DictV([[ListV([Const('t'), Const(0)], True), ListV([clause])]])
+        outs = sx.run(cp, [d], state0.copy())
+        if len(outs) != 1:
+            return None
+        st, v = outs[0]
+        if isinstance(v, CallV) and v.name == 'raise':
+            return [(st, v)]
+        if not (isinstance(v, New) and v.cls.name == 'YPCodeProgram' and v.args):
+            return None
+        fs = sx.as_sequence(v.args[0])
+        if not fs or len(fs) != 1 or not (isinstance(fs[0], New) and fs[0].cls.name == 'YPCodeFunction' and len(fs[0].args) >= 3):
+            return None
+        b = sx.as_sequence(fs[0].args[2])
+        if b is None:
+            return None
+        return [(st, ListV(b))]
     for i, t in enumerate(all_bodies(depth, combs)):
         if i % step != lo:
             continue
         n += 1
         try:
-            outs = sx.run(cb, [body_to_new(cm, t)])
+            outs = None
+            if whole:
+                try:
+                    outs = through_program(body_to_new(cm, t))
+                except AnalysisError:
+                    outs = None
+                if outs is None:
+                    whole = False       # not evaluable this way on this tree: compile_body directly, for all bodies
+            if outs is None:
+                outs = sx.run(cb, [body_to_new(cm, t)])
         except AnalysisError as e:
             return n, runs, [('error', 'bounded evaluation of compile_body on %s: %s' % (sem.show(t), e))]
         if len(outs) != 1:
